@@ -2,25 +2,62 @@
 //! calls `futures::executor::block_on` internally (Clock::now), which panics when nested inside
 //! another futures-rs executor. Simulated futures that return Pending always wake first, so the
 //! SUT's inner block_on never parks forever.
+//!
+//! The loop runs inside the context of a per-thread tokio runtime whose clock is *paused*: code under
+//! test that uses tokio timers (`tokio::time::timeout`, `sleep`) finds a reactor, and the only thing that
+//! moves that clock is the simulator (`advance`, called by slow simulated deliveries). Simulated time is
+//! therefore a pure function of the run, like everything else.
 
+use std::cell::Cell;
 use std::future::Future;
 use std::pin::pin;
 use std::task::{Context, Poll};
 
+thread_local! {
+    static RT: tokio::runtime::Runtime = tokio::runtime::Builder::new_current_thread()
+        .enable_time()
+        .start_paused(true)
+        .build()
+        .expect("harness: tokio runtime for the simulated clock");
+    static ADVANCED_MS: Cell<u64> = const { Cell::new(0) };
+}
+
 pub fn block_on<F: Future>(f: F) -> F::Output {
-    let mut f = pin!(f);
-    let waker = futures::task::noop_waker();
-    let mut cx = Context::from_waker(&waker);
-    let mut polls: u64 = 0;
-    loop {
-        match f.as_mut().poll(&mut cx) {
-            Poll::Ready(v) => return v,
-            Poll::Pending => {
-                polls += 1;
-                if polls > 10_000_000 {
-                    panic!("harness: future still pending after 10M polls");
+    RT.with(|rt| {
+        let _guard = rt.enter();
+        let mut f = pin!(f);
+        let waker = futures::task::noop_waker();
+        let mut cx = Context::from_waker(&waker);
+        let mut polls: u64 = 0;
+        loop {
+            match f.as_mut().poll(&mut cx) {
+                Poll::Ready(v) => return v,
+                Poll::Pending => {
+                    polls += 1;
+                    if polls > 10_000_000 {
+                        panic!("harness: future still pending after 10M polls");
+                    }
                 }
             }
         }
-    }
+    })
+}
+
+/// Run synchronous SUT code (which may block on futures itself) inside the same runtime context.
+pub fn enter<R>(f: impl FnOnce() -> R) -> R {
+    RT.with(|rt| {
+        let _guard = rt.enter();
+        f()
+    })
+}
+
+/// Move the simulated (tokio, paused) clock of this thread forward; timers that become due are woken.
+pub fn advance(ms: u64) {
+    RT.with(|rt| rt.block_on(tokio::time::advance(std::time::Duration::from_millis(ms))));
+    ADVANCED_MS.with(|a| a.set(a.get() + ms));
+}
+
+/// Simulated milliseconds this thread's clock was advanced since the last call.
+pub fn take_advanced_ms() -> u64 {
+    ADVANCED_MS.with(|a| a.replace(0))
 }
